@@ -30,12 +30,19 @@ type c03Closed struct {
 
 // c03Env is the per-case environment shared with C04/C05 style harnesses.
 type c03Env struct {
-	dir      string
-	poison   bool
-	closed   []c03Closed
-	stepNow  int     // current scheduler step (set by the schedule runner)
-	files    []*file // files whose counter lists are recorded when a mapping is closed
-	oldUnmap func(*mmap.Data) error
+	dir     string
+	poison  bool
+	closed  []c03Closed
+	stepNow int     // current scheduler step (set by the schedule runner)
+	files   []*file // files whose counter lists are recorded when a mapping is closed
+	// walked[thread] is the set of counters that were on the list when that thread last started
+	// file.invalidateCounters (the walk sees exactly these); curThread is the thread running now.
+	// Both are maintained by the schedule runner's step hook (noteStep); without them the list at
+	// the time of closing is used.
+	walked    map[int]map[*Counter]bool
+	walkHead  string
+	curThread int
+	oldUnmap  func(*mmap.Data) error
 }
 
 func c03Setup(base string, seq int, poison bool) *c03Env {
@@ -50,13 +57,10 @@ func c03Setup(base string, seq int, poison bool) *c03Env {
 			return nil
 		}
 		full := d.Data[:cap(d.Data)]
-		reg := map[*Counter]bool{}
-		for _, f := range e.files {
-			if head := f.counters.Load(); head != nil {
-				for c := head; c != nil && c != &f.end; c = c.next.Load() {
-					reg[c] = true
-				}
-			}
+		reg := e.walked[e.curThread]
+		delete(e.walked, e.curThread) // one walk per closed mapping
+		if reg == nil {
+			reg = e.listed()
 		}
 		e.closed = append(e.closed, c03Closed{uintptr(unsafePointer(full)), uintptr(unsafePointer(full)) + uintptr(len(full)), full, e.stepNow, reg})
 		if e.poison {
@@ -68,6 +72,36 @@ func c03Setup(base string, seq int, poison bool) *c03Env {
 		return nil
 	}
 	return e
+}
+
+// listed returns the counters that are on the lists of e.files now.
+func (e *c03Env) listed() map[*Counter]bool {
+	reg := map[*Counter]bool{}
+	for _, f := range e.files {
+		if head := f.counters.Load(); head != nil {
+			for c := head; c != nil && c != &f.end; c = c.next.Load() {
+				reg[c] = true
+			}
+		}
+	}
+	return reg
+}
+
+// noteStep is called by the step hook before thread th performs the operation at th.Site.
+func (e *c03Env) noteStep(step int, th *vhook.Thread) {
+	e.stepNow = step
+	e.curThread = th.ID
+	if strings.Contains(th.Site, ":invalidateCounters:atomic.Load") {
+		if e.walkHead == "" {
+			e.walkHead = th.Site // the first load of the function is the load of the list head
+		}
+		if th.Site == e.walkHead {
+			if e.walked == nil {
+				e.walked = map[int]map[*Counter]bool{}
+			}
+			e.walked[th.ID] = e.listed()
+		}
+	}
 }
 
 func (e *c03Env) teardown(files ...*file) {
